@@ -408,9 +408,9 @@ def depth(n):
     return 0
 
 
-def alias_context_conflict(doc):
-    """True iff some anchored node is adopted (at its definition or through an alias, also inside other aliased subtrees) by parents that
-    hand down different inherited flags.  One node object can hold one set of inherited flags only, so what such a document
+def alias_context_conflict(doc, shared_only=False):
+    """True iff some anchored node that stays one object (anything but a plain container) is adopted (at its definition or through an
+    alias, also inside other aliased subtrees) by parents that hand down different inherited flags.  One node object can hold one set of inherited flags only, so what such a document
     means is not defined - the original tree itself then depends on which parent adopted the node last."""
     defs = {n['anchor']: n for _, n in walk(doc) if n.get('anchor')}
     seen = {}
@@ -451,4 +451,10 @@ def alias_context_conflict(doc):
             for v in n['items']:
                 rec(v, c, depth + 1)
     rec(doc, (None, None, None, None))
-    return any(len(v) > 1 for v in seen.values())
+
+    def shared(name):
+        # plain containers (with or without merge-control flags) get a container of their own at every alias; everything else
+        # (function / path nodes, scalars, dynamic nodes) is one node object at all its places
+        n = defs.get(name)
+        return n is None or n['t'] not in ('map', 'seq') or bool(n.get('tag'))
+    return any(len(v) > 1 for k, v in seen.items() if shared(k) or not shared_only)
